@@ -102,6 +102,19 @@ def run_case(c):
     a = AnyNode(zeta=1, alpha="x", _hidden=2)
     if repr(a) != "AnyNode(alpha='x', zeta=1)":
         return "AnyNode repr %r" % repr(a)
+    # attribute names that are pieces of a hidden name ('name', 'target') are public attributes like any other; the hidden names
+    # themselves are left out where the class shows them otherwise (Node: in the path; SymlinkNode: as its first argument)
+    from anytree import Node, SymlinkNode
+    odd = Node("top", a=1, e=2, me=3, nam=4, names=5, Name=6)
+    if repr(odd) != "Node('/top', Name=6, a=1, e=2, me=3, nam=4, names=5)":
+        return "Node repr %r" % repr(odd)
+    a2 = AnyNode(name="x", a=1, n=2)
+    if repr(a2) != "AnyNode(a=1, n=2, name='x')":
+        return "AnyNode repr %r" % repr(a2)
+    ln = SymlinkNode(a2)
+    ln.__dict__.update({"t": 1, "get": 2})
+    if repr(ln) != "SymlinkNode(%s, get=2, t=1)" % repr(a2):
+        return "SymlinkNode repr %r" % repr(ln)
     return None
 
 
